@@ -128,8 +128,58 @@ def normalize_function(fn: ast.AST) -> int:
             return n
 
 
+def _const(e: ast.AST) -> bool:
+    return isinstance(e, ast.Constant) or (isinstance(e, ast.UnaryOp) and isinstance(e.operand, ast.Constant))
+
+
+def _size(e: ast.AST) -> int:
+    return sum(1 for _ in ast.walk(e))
+
+
+class _Canon(ast.NodeTransformer):
+    """One spelling per comparison and per two-armed conditional:
+    * a constant operand stands on the right (`0 < x` -> `x > 0`);
+    * an ordering comparison of two non-constant operands is written with < or <= (`a > b` -> `b < a`);
+    * of the operands of == / != the structurally larger one stands on the left (ties keep their order, so rules
+      that read an equality of two like operands accept both orders);
+    * `if not c: A else: B` -> `if c: B else: A` (plain else block only), the same for conditional expressions."""
+
+    MIRROR = {ast.Lt: ast.Gt, ast.Gt: ast.Lt, ast.LtE: ast.GtE, ast.GtE: ast.LtE, ast.Eq: ast.Eq, ast.NotEq: ast.NotEq}
+
+    def visit_Compare(self, node):
+        self.generic_visit(node)
+        if len(node.ops) != 1 or type(node.ops[0]) not in self.MIRROR:
+            return node
+        l, r, op = node.left, node.comparators[0], node.ops[0]
+        swap = False
+        if _const(l) and not _const(r):
+            swap = True
+        elif not _const(l) and not _const(r):
+            if isinstance(op, (ast.Gt, ast.GtE)):
+                swap = True
+            elif isinstance(op, (ast.Eq, ast.NotEq)) and _size(l) < _size(r):
+                swap = True
+        if swap:
+            node.left, node.comparators, node.ops = r, [l], [self.MIRROR[type(op)]()]
+        return node
+
+    def visit_If(self, node):
+        self.generic_visit(node)
+        if node.orelse and not (len(node.orelse) == 1 and isinstance(node.orelse[0], ast.If)) \
+                and isinstance(node.test, ast.UnaryOp) and isinstance(node.test.op, ast.Not):
+            node.test, node.body, node.orelse = node.test.operand, node.orelse, node.body
+        return node
+
+    def visit_IfExp(self, node):
+        self.generic_visit(node)
+        if isinstance(node.test, ast.UnaryOp) and isinstance(node.test.op, ast.Not):
+            node.test, node.body, node.orelse = node.test.operand, node.orelse, node.body
+        return node
+
+
 def normalize_tree(tree: ast.Module) -> int:
     n = 0
+    _Canon().visit(tree)
     for node in tree.body:
         if isinstance(node, (ast.FunctionDef, ast.AsyncFunctionDef)):
             n += normalize_function(node)
